@@ -22,9 +22,11 @@ RequestsFull  == ReqPost \cup ReqFresh({"GET", "WS", "FORM", "MULTIPART", "SSE"}
                  \cup ReqBad({"GET", "WS", "FORM", "MULTIPART", "SSE"}) \cup ReqGraphql
 
 (* two requests in flight: a small alphabet *)
-RequestsConc == {R("POST", q, o, v, e) : q \in {"-", "Q1", "Q2"}, o \in {"-", "A"},
+RequestsConc == {R("POST", q, o, v, e) : q \in {"-", "Q1"}, o \in {"-", "A"},
                                           v \in {"-", "V1", "V2"}, e \in {"-", "H:Q1"}}
                 \cup {R("GET", "Q1", "A", "V1", "H:Q1"), R("GET", "-", "-", "V2", "H:Q1"), R("WS", "Q2", "-", "-", "X")}
+(* the negative configurations need two texts *)
+RequestsNeg == RequestsConc \cup {R("POST", "Q2", o, v, "-") : o \in {"-", "A"}, v \in {"-", "V1", "V2"}}
 
 AllSix == {"q", "opn", "vars", "ext", "hdr", "rt"}
 No_q == AllSix \ {"q"}
